@@ -890,12 +890,12 @@ class C04(PropertyCheck):
         res.notes.append("systematic: every qelib1 gate, U and CX x {indexed, whole-register broadcast, if on a 1-bit "
                          "register, if on a 2-bit register}; then generated programs and their malformed variants")
         # generated programs
-        n_gen = 1500 if ctx.thorough else 260
+        n_gen = 8000 if ctx.thorough else 260
         progs = [g.program() for _ in range(n_gen)]
         self._run(ctx, res, progs, ["stream=generated"])
         # malformed variants
         bad = []
-        base = progs[: (600 if ctx.thorough else 130)]
+        base = progs[: (3000 if ctx.thorough else 130)]
         for p in base:
             for kind in rng.sample(MUTATIONS, 4 if ctx.thorough else 3):
                 m = mutate(rng, p, kind)
@@ -915,7 +915,7 @@ class C04(PropertyCheck):
             if sel:
                 self._run(ctx, res, sel, ["stream=malformed", "mutation=" + kind])
         # the Lean specification against the independent Python front end
-        spec_cross_check(ctx, res, progs[: (400 if ctx.thorough else 120)] + [m for _, m in bad[: (300 if ctx.thorough else 100)]])
+        spec_cross_check(ctx, res, progs[: (1500 if ctx.thorough else 120)] + [m for _, m in bad[: (1200 if ctx.thorough else 100)]])
 
     # ------------------------------------------------------------------------------------------------
     def oracle_replay(self, ctx, w):
@@ -953,7 +953,7 @@ class C04(PropertyCheck):
         n = 0
         for p in self._stream(ctx):
             n += 1
-            if n > (400 if ctx.thorough else 90):
+            if n > (2500 if ctx.thorough else 90):
                 return
             if not self._in_sweep_class(p):
                 continue
